@@ -644,6 +644,18 @@ Proof.
     apply G; [apply incl_refl | exact Hm].
 Qed.
 
+Lemma rules_of_heap_set R1 R2 d rt t' :
+  nth_error (heap R1) d = Some rt ->
+  heap R2 = heap_set (heap R1) d (set_methods rt t') -> routes R2 = routes R1 ->
+  forall q d', In (q, d') (rules_of R1) -> In (q, d') (rules_of R2).
+Proof.
+  intros E Hh Hr q d' Hin. apply in_rules_of in Hin. destruct Hin as (p & rt0 & A & B & ->).
+  apply in_rules_of. rewrite Hh, Hr. destruct (Nat.eq_dec d d') as [<-|Hd].
+  - exists p, (set_methods rt t'). rewrite nth_error_heap_set, Nat.eqb_refl, E. split; [exact A|].
+    split; [reflexivity|]. assert (rt0 = rt) by congruence. now subst.
+  - exists p, rt0. rewrite nth_error_heap_set. apply Nat.eqb_neq in Hd. now rewrite Hd.
+Qed.
+
 (* a registration that is not refused by the tree is, afterwards, one of the
    rules — under the pattern and the filters it was made with *)
 Lemma add_registers R rule pattern nm flts ms h name ow :
@@ -652,15 +664,6 @@ Lemma add_registers R rule pattern nm flts ms h name ow :
   exists d, In (pat_of pattern flts, d) (rules_of (fst (rt_add R rule pattern nm flts ms h name ow))).
 Proof.
   intros HI Hn Hne.
-  (* the rules of the final state are those of the state after the registration part *)
-  assert (Hcore : forall R1 d rt t' nmd, nth_error (heap R1) d = Some rt ->
-            forall q d', In (q, d') (rules_of R1) ->
-            In (q, d') (rules_of (mkRouter (tree R1) (heap_set (heap R1) d (set_methods rt t')) (routes R1) nmd (hooks_idx R1)))).
-  { intros R1 d rt t' nmd E q d' Hin. apply in_rules_of in Hin. destruct Hin as (p & rt0 & A & B & ->).
-    apply in_rules_of. simpl. destruct (Nat.eq_dec d d') as [<-|Hd].
-    - exists p, (set_methods rt t'). rewrite nth_error_heap_set, Nat.eqb_refl, E. split; [exact A|].
-      split; [reflexivity|]. assert (rt0 = rt) by congruence. now subst.
-    - exists p, rt0. rewrite nth_error_heap_set. apply Nat.eqb_neq in Hd. now rewrite Hd. }
   pose proof (Inv_add_found R rule pattern nm flts HI Hn) as Hf.
   unfold rt_add in *.
   destruct (rt_match R pattern flts) as [d|] eqn:Em.
@@ -681,23 +684,24 @@ Proof.
       repeat match goal with
              | |- context [match al_get ?l ?k with _ => _ end] => destruct (al_get l k); simpl
              | |- context [if ?b then _ else _] => destruct b; simpl
-             end; now apply Hcore.
+             end; (eapply (rules_of_heap_set R _ d rt t'); [exact E | reflexivity | reflexivity | exact Hin0]).
   - cbv zeta in *. destruct (set_at (tree R) pattern flts 0 (IData (length (heap R))) nm) as [t'|e] eqn:Es.
     2:{ exfalso. apply (Hne e). reflexivity. }
-    set (d := length (heap R)) in *. set (new := mkRoute rule pattern nm flts []) in *.
-    set (R1 := mkRouter t' (heap R ++ [new]) (al_set (routes R) pattern d) (named R) (hooks_idx R)) in *.
+    clear Hne Hf.
+    set (d := length (heap R)). set (new := mkRoute rule pattern nm flts []).
+    set (R1 := mkRouter t' (heap R ++ [new]) (al_set (routes R) pattern d) (named R) (hooks_idx R)).
     assert (Hnew : nth_error (heap R1) d = Some new).
     { unfold R1, d. simpl. rewrite nth_error_app2 by lia. now rewrite Nat.sub_diag. }
     assert (Hin0 : In (pat_of pattern flts, d) (rules_of R1)).
     { apply in_rules_of. exists pattern, new. split; [|split; [exact Hnew | reflexivity]].
       apply al_get_in. unfold R1. simpl. now rewrite al_get_set, str_eqb_refl. }
-    rewrite Hnew. simpl.
-    destruct (if ow then Some _ else mt_add _ _ _) as [t2|]; [|eauto].
+    change (heap R ++ [new]) with (heap R1). rewrite Hnew. cbn [r_methods new].
+    destruct (if ow then Some _ else mt_add _ _ _) as [t2|]; [|exists d; exact Hin0].
     exists d. destruct name as [[|c nme]|]; simpl;
       repeat match goal with
              | |- context [match al_get ?l ?k with _ => _ end] => destruct (al_get l k); simpl
              | |- context [if ?b then _ else _] => destruct b; simpl
-             end; now apply Hcore.
+             end; (eapply (rules_of_heap_set R1 _ d new t2); [exact Hnew | reflexivity | reflexivity | exact Hin0]).
 Qed.
 
 (* a registration refused by the tree (filter conflict ...) changes nothing *)
@@ -783,7 +787,7 @@ Proof.
       - rewrite E in A. injection A as <-. simpl in B. rewrite Ht', mt_get_set_all in B.
         destruct (existsb (fun m0 => str_eqb m0 m) (norm_methods methods)) eqn:Ex.
         + injection B as <- <-. exists rule, flts, methods, name, overwrite. split.
-          * apply in_or_app. right. left. simpl. now rewrite (Hpat rt E).
+          * apply in_or_app. right. left. simpl. now rewrite (Hpat rt eq_refl).
           * now apply existsb_str_in.
         + destruct (Hp1 d rt m h0 mn E B) as (r0 & f0 & m0 & n0 & o0 & Hin & Hm).
           exists r0, f0, m0, n0, o0. split; [apply in_or_app; now left | exact Hm].
@@ -838,4 +842,35 @@ Proof.
     + vm_compute. lia.
     + reflexivity.
   - vm_compute. intros p e [H|[]]. injection H as <- _. vm_compute. discriminate.
+Qed.
+
+(* ------------------------------------------------------------------ *)
+(* what the handler receives                                            *)
+(* ------------------------------------------------------------------ *)
+Lemma params_exact_lemma : forall filt cs path cds d m h kw hs,
+  Forall add_cmd cs ->
+  resolve filt (exec_cmds router0 cs) path cds = ROk d m h kw hs ->
+  exists rt mn vs rule fl ms name ow,
+    nth_error (heap (exec_cmds router0 cs)) d = Some rt /\
+    In (CAdd rule (r_pattern rt) mn fl ms h name ow) cs /\ In m (norm_methods ms) /\
+    match1 filt (pat_of (r_pattern rt) (r_filters rt)) (strip_sep path) = Some vs /\
+    Forall2 (value_from filt) (filters_of (pat_of (r_pattern rt) (r_filters rt))) vs /\
+    kw = make_params (match mn with [] => r_names rt | _ :: _ => mn end) vs.
+Proof.
+  intros filt cs path cds d m h kw hs Hcs Hres.
+  set (R := exec_cmds router0 cs) in *.
+  assert (HI : Inv R) by (apply Inv_exec; [apply Inv0 | exact Hcs]).
+  pose proof (resolve_eq_spec_lemma filt R path cds HI) as Hspec.
+  destruct (spec filt (rules_of R) (strip_sep path)) as [[[q d'] vs]|] eqn:Es.
+  - destruct Hspec as (rt & hs' & A & B & C & D). rewrite Hres in D.
+    destruct (dispatch_on (r_methods rt) cds) as [m' [h' mn]|a] eqn:Ed; [|discriminate].
+    injection D as <- <- <- -> <-.
+    assert (Hget : mt_get (r_methods rt) m = Some (h, mn)).
+    { apply dispatch_first_lemma in Ed. destruct Ed as (_ & _ & _ & _ & Hg). exact Hg. }
+    destruct (prov_exec cs Hcs d rt m h mn A Hget) as (rule & fl & ms & name & ow & Hin & Hm).
+    assert (Hm1 : match1 filt q (strip_sep path) = Some vs).
+    { unfold spec in Es. apply pick_in in Es. apply in_hits in Es. tauto. }
+    exists rt, mn, vs, rule, fl, ms, name, ow. subst q. repeat split; auto.
+    eapply match1_values; eauto.
+  - destruct Hspec as (vs & hs' & i & D). rewrite Hres in D. discriminate.
 Qed.
